@@ -240,9 +240,7 @@ theorem clean_parseClassifiers (s : String) : Clean (parseClassifiers s) :=
 theorem clean_parsePythonVersion (s : String) : Clean (parsePythonVersion s) := by
   unfold parsePythonVersion
   split
-  · split
-    · exact Clean.ok _
-    · exact Clean.refurb _
+  · exact Clean.ite (Clean.ite (Clean.refurb _) (Clean.ok _)) (Clean.refurb _)
   · exact Clean.refurb _
 
 theorem clean_validateFormat (s : String) : Clean (validateFormat s) := by
